@@ -46,8 +46,10 @@ def eval_call(I, node, frame):
         if fn.id == 'ite' and I.spec:
             c = I.truth(I.eval(node.args[0], frame))
             return I.ite_sv(c, I.eval(node.args[1], frame), I.eval(node.args[2], frame), node)
+        if fn.id == 'is_none' and I.spec:
+            return mk_bool(spec_is_none(I, node.args[0], frame))
         if fn.id == 'super':
-            if frame.cls is None or frame.self_sv is None and frame.lookup('self') is None:
+            if frame.cls is None or (frame.lookup('self') is None and frame.lookup('cls') is None):
                 I.oos(node, "super() outside a method")
             slf = frame.lookup('self') or frame.lookup('cls')
             return SV('super', (frame.cls, slf))
@@ -144,8 +146,31 @@ def call_callable(I, fsv, args, kwargs, node):
     I.oos(node, f"call of {k}")
 
 
+def spec_is_none(I, expr, frame):
+    """is_none(<expr>) inside a contract clause: optional record fields are read through their isnone predicate"""
+    if isinstance(expr, ast.Attribute):
+        base = I.eval(expr.value, frame)
+        if base.kind == 'rec':
+            from .objects import isnone_fn
+            classes = base.extra['classes']
+            decls = {I.registry.field_decl(c, expr.attr) for c in classes}
+            if len(decls) == 1 and None not in decls:
+                dcls, fty = next(iter(decls))
+                if isinstance(fty, tuple) and fty[0] == 'opt':
+                    return isnone_fn(dcls, expr.attr)(base.t)
+                return z3.BoolVal(fty == 'none')
+    v = I.eval(expr, frame)
+    return z3.BoolVal(v.kind == 'none')
+
+
 def method_of_super(I, sup, name, node):
     cls, slf = sup.t
+    if name == '__new__' and slf.kind == 'cls':
+        # <builtin>.__new__(cls, value) for the value classes (E10: CPython object model)
+        ci = I.world.find_class(slf.t)
+        bb = I.world.builtin_base(ci) if ci else None
+        if bb is not None:
+            return SV('func', BuiltinRef('builtin_new:' + bb, slf))
     found = I.world.find_method(I.world.find_class(slf.cls) if slf.kind in ('mobj', 'rec') and slf.cls else cls,
                                 name, after=cls)
     if found is None:
@@ -211,14 +236,22 @@ def construct(I, cname, args, kwargs, node):
 
 
 def make_param_value(I, cname, args, kwargs, node):
-    """common._Parameter.__new__ is under contract (C20); construction of a value class goes through it."""
+    """Construction of a value class.  Call sites use exactly the postcondition of the contract on
+    common._Parameter.__new__ (proved on the real code under C20): the built-in value of `value`, and
+    raw_value = value if raw_value is None else raw_value."""
     con = I.registry.contract_for('common._Parameter.__new__')
-    base = TY.PVAL_KINDS[cname][0]
     if con is None:
         I.oos(node, "no contract for common._Parameter.__new__")
-    from .contract import apply_contract
-    allargs = [SV('cls', 'common.' + cname)] + list(args)
-    res = apply_contract(I, con, allargs, kwargs, node, result_builder=lambda val, raw: build_param(I, cname, val, raw, node))
+    allargs = list(args)
+    val = allargs[0] if allargs else kwargs.get('value')
+    raw = allargs[1] if len(allargs) > 1 else kwargs.get('raw_value', NONE)
+    if val is None or len(allargs) > 2:
+        I.raise_('TypeError', node)
+    res = build_param(I, cname, val, None, node)
+    res.extra['raw'] = SV(res.kind, res.t) if raw.kind == 'none' else raw
+    if raw.kind == 'none':
+        # raw_value defaults to the constructor argument itself
+        res.extra['raw'] = val if val.kind in ('int', 'bool', 'real', 'str', 'bytes') else SV(res.kind, res.t)
     return res
 
 
@@ -271,8 +304,16 @@ def literal_str(sv):
     return None
 
 
+ALLOWED_KW = {'int.from_bytes': {'byteorder'}, 'int.to_bytes': {'length', 'byteorder'}, 'bytes': {'encoding'},
+              'dict.get': set()}
+
+
 def call_builtin(I, f, args, kwargs, node):
     name = f.name
+    if kwargs and not name.startswith(('spec:', 'uninterp:', 'axiom:', 'contractfunc:')):
+        extra = set(kwargs) - ALLOWED_KW.get(name, set())
+        if extra:
+            I.oos(node, f"builtin {name} called with unmodelled keyword(s) {sorted(extra)}")
     slf = f.self_sv
     if name.startswith('spec:'):
         from .specprims import call_spec
@@ -284,6 +325,14 @@ def call_builtin(I, f, args, kwargs, node):
             ts.append(I.as_bytes(a) if s_ == 'bytes' else (as_real_term(a) if s_ == 'real' else (a.t if s_ not in ('int',) else as_int_term(a))))
         from .objects import wrap_term
         return wrap_term(I, sig[-1], fn(*ts))
+    if name.startswith('builtin_new:'):
+        base = {'int': 'int', 'float': 'real', 'str': 'str', 'bytes': 'bytes'}[name.split(':')[1]]
+        cls_sv, val = args[0], args[1]
+        v = coerce_base(I, base, val, node)
+        cname = cls_sv.t.split('.')[-1]
+        if cname == 'BoolParameter':
+            pass
+        return SV('valobj', {'base': v, 'cls': cname, 'attrs': {}})
     if name.startswith('axiom:'):
         st = I.registry.axiom_schemas[name[6:]]
         clo = Closure(st, Frame(module='__spec__'), 'spec.' + st.name, '__spec__')
